@@ -5,7 +5,7 @@ import math
 import numpy as np
 
 from harness import common, numeric, tlegen
-from checks import sgp4common
+from checks import sgp4common, sgp4ref
 
 LEVEL = "proof"
 
@@ -72,6 +72,20 @@ def run(ctx):
             ctx.violation("out-of-range elements were not refused with OrbitalError (%s)" % iclass,
                           {"signature": "C13:elements:%s" % l2[8:63], **base, "e": e, "inc": inc, "n": n})
             continue
+        # independent classification from the report's own recovery of n0'', a0''
+        ref = None
+        if not bad_elements:
+            try:
+                ref = sgp4ref.init(sgp4ref.elements(**sgp4common.tle_env(tle)))
+            except (ValueError, ZeroDivisionError, OverflowError):
+                ref = None
+        if ref is not None and iclass in ("ok", "InitNotImplemented"):
+            if ref["period"] >= 225.0 * (1 + 1e-9) and iclass != "InitNotImplemented":
+                ctx.violation("a deep-space element set (period >= 225 min) was not refused at construction",
+                              {"signature": "C13:deep:%s" % l2[8:63], **base, "period_min": ref["period"]})
+            if ref["period"] < 225.0 * (1 - 1e-9) and iclass == "InitNotImplemented":
+                ctx.violation("a near-earth element set (period < 225 min) was refused as deep space",
+                              {"signature": "C13:notdeep:%s" % l2[8:63], **base, "period_min": ref["period"]})
         if iclass != "ok":
             continue
         ep = tle.epoch.astype("datetime64[us]")
@@ -81,8 +95,41 @@ def run(ctx):
         if pclass in ("hang",) or pclass.startswith("raise:"):
             ctx.violation("propagation ended with %s" % pclass, {"signature": "C13:prop:%s:%s" % (pclass, l2[8:63]), **base})
             continue
+        if ref is not None and ref["period"] < 225.0 and ref["perigee"] < 220.0 - 1e-6 and pclass != "NotImpl":
+            ctx.violation("propagation answered (or failed otherwise) although the perigee is below 220 km",
+                          {"signature": "C13:lowperigee:%s" % l2[8:63], **base, "perigee_km": ref["perigee"], "outcome": pclass})
         if pclass == "ok":
+            r_km = float(np.linalg.norm(np.asarray(state[0], dtype=float)))
+            if r_km < 6378.135 * (1 - 1e-3):
+                ctx.violation("a state inside the earth was returned instead of a decay exception",
+                              {"signature": "C13:underground:%s:%.3f" % (l2[8:63], minutes), **base, "radius_km": r_km})
             arr = np.concatenate([np.asarray(state[0], dtype=float).ravel(), np.asarray(state[1], dtype=float).ravel()])
             if not np.all(np.isfinite(arr)):
                 ctx.violation("a returned state has NaN or infinite components",
                               {"signature": "C13:nonfinite:%s:%.3f" % (l2[8:63], minutes), **base, "state": arr.tolist(), "summary_period_min": per})
+
+    # ---------------- decay stratum: follow high-drag, eccentric sets until they are refused ----------------
+    for k in range(ctx.n(6, 40)):
+        f = tlegen.random_fields(ctx.rng)
+        f["mm"] = ctx.rng.uniform(14.8, 15.6)
+        f["ecc"] = ctx.rng.randint(200000, 450000)            # perigee just above 220 km, apogee high
+        f["bstar"] = (ctx.rng.randint(20000, 99999), -ctx.rng.randint(1, 2), " ")
+        l1, l2 = tlegen.make(**f)
+        iclass, orb = sgp4common.impl_init(l1, l2)
+        if iclass != "ok":
+            continue
+        ep = orb.tle.epoch.astype("datetime64[us]")
+        for step in range(0, 4000, 7):
+            t = ep + np.timedelta64(step * 60 * 10**6, "us")
+            pclass, state = sgp4common.impl_prop(orb, t)
+            ctx.case(("decay", l1, l2, step))
+            if pclass != "ok":
+                if pclass in ("hang",) or pclass.startswith("raise:"):
+                    ctx.violation("propagation ended with %s" % pclass, {"signature": "C13:prop:%s:%s" % (pclass, l2[8:63]), "line1": l1, "line2": l2, "minutes": step})
+                break
+            arr = np.concatenate([np.asarray(state[0], dtype=float).ravel(), np.asarray(state[1], dtype=float).ravel()])
+            r_km = float(np.linalg.norm(arr[:3]))
+            if not np.all(np.isfinite(arr)) or r_km < 6378.135 * (1 - 1e-3):
+                ctx.violation("a decayed orbit was answered (state inside the earth or not finite) instead of raising",
+                              {"signature": "C13:decayed:%s:%d" % (l2[8:63], step), "line1": l1, "line2": l2, "minutes": step, "radius_km": r_km})
+                break
